@@ -1,5 +1,5 @@
 (* P_C06.v — size invariants of the sub-parsers. *)
-From Via Require Import M_Char M_Parse M_Receive.
+From Via Require Import M_Char M_Parse M_Receive P_Parse P_Frag.
 Require Import ZifyBool ZifyNat ZifyN.
 Local Open Scope N_scope.
 
@@ -46,3 +46,190 @@ Proof.
     destruct (rl_parse_char L r c) as [r1 ok]. cbn [fst] in H1. destruct ok; [apply IH; exact H1|exact H1].
 Qed.
 
+
+(* ---- field_line: the stored name and value are bounded by the characters counted ---- *)
+Definition fl_slack (s : fl_st) : N :=
+  match s with H_VALUE_LS | H_VALUE | H_LF => 1 | H_VALID => 2 | _ => 0 end.
+Definition past_colon (s : fl_st) : bool :=
+  match s with H_VALUE_LS | H_VALUE | H_LF | H_VALID => true | _ => false end.
+
+Definition fl_core (f : field) : Prop :=
+  nlen (fl_name f) + nlen (fl_value f) + fl_slack (fl_state f) <= fl_length f /\
+  (fl_state f = H_NAME -> fl_value f = []) /\
+  (past_colon (fl_state f) = true -> fl_name f <> []).
+
+Definition fl_inv (L : limits) (f : field) : Prop :=
+  fl_core f /\ fl_length f <= max_line L + 1 /\ (fl_fail f = false -> fl_length f <= max_line L).
+
+Lemma fl_inv_init L : fl_inv L fl_init.
+Proof. unfold fl_inv, fl_core, nlen. cbn. repeat split; try lia; congruence. Qed.
+
+Lemma fl_value_case_core L f c :
+  nlen (fl_name f) + nlen (fl_value f) + 2 <= fl_length f -> fl_state f = H_VALUE -> fl_name f <> [] ->
+  fl_core (fst (fl_value_case L f c)) /\ fl_length (fst (fl_value_case L f c)) = fl_length f.
+Proof.
+  intros Hs Hst Hn. unfold fl_value_case.
+  destruct (negb (is_end_of_line c)); [|destruct (c =? 13); [|destruct (strict_crlf L)]];
+    unfold fl_core; cbn; rewrite ?nlen_snoc, ?Hst; cbn; repeat split; try lia; try congruence.
+Qed.
+
+Lemma fl_parse_char_core L f0 c : fl_core f0 ->
+  fl_core (fst (fl_parse_char L f0 c)) /\ fl_length (fst (fl_parse_char L f0 c)) = fl_length f0 + 1 /\
+  (snd (fl_parse_char L f0 c) = true -> fl_length f0 + 1 <= max_line L).
+Proof.
+  intros (Hs & Hv & Hn). unfold fl_parse_char.
+  set (f1 := mk_fl (fl_name f0) (fl_value f0) (fl_length f0 + 1) (fl_ws f0) (fl_state f0) (fl_fail f0)).
+  destruct (max_line L <? fl_length f1) eqn:Eover.
+  - cbn [fl_set_state fl_state fst snd]. unfold fl_core. cbn. repeat split; try lia; try congruence.
+  - assert (Hlen : fl_length f0 + 1 <= max_line L) by (cbn in Eover; lia).
+    change (fl_state f1) with (fl_state f0).
+    destruct (fl_state f0) eqn:Es.
+    + (* NAME *)
+      destruct (is_token c && (c <? 128)).
+      * unfold fl_core. cbn. rewrite ?Es, ?nlen_snoc. cbn in *. rewrite (Hv eq_refl) in *. repeat split; try lia; try congruence.
+      * destruct (fl_name f0) eqn:En; cbn [negb andb]; rewrite ?Bool.andb_false_r.
+        -- unfold fl_core. cbn. rewrite ?Es, ?En. cbn in *. rewrite (Hv eq_refl) in *. repeat split; try lia; try congruence.
+        -- destruct (c =? 58); cbn [andb negb].
+           ++ unfold fl_core. cbn. rewrite ?En. cbn in *. rewrite (Hv eq_refl) in *. repeat split; try lia; try congruence.
+           ++ unfold fl_core. cbn. rewrite ?Es, ?En. cbn in *. rewrite (Hv eq_refl) in *. repeat split; try lia; try congruence.
+    + (* VALUE_LS *)
+      assert (Hn' : fl_name f0 <> []) by (apply Hn; reflexivity).
+      destruct (isblank c).
+      * match goal with |- context [if ?b then _ else _] => destruct b end;
+          unfold fl_core; cbn; rewrite ?Es; cbn in *; repeat split; try lia; try congruence.
+      * destruct (fl_value_case_core L (fl_set_state f1 H_VALUE) c) as [A B]; [cbn in *; lia | reflexivity | exact Hn'|].
+        split; [exact A|]. split; [rewrite B; reflexivity | intros _; exact Hlen].
+    + (* VALUE *)
+      assert (Hn' : fl_name f0 <> []) by (apply Hn; reflexivity).
+      destruct (fl_value_case_core L f1 c) as [A B]; [cbn in *; lia | reflexivity | exact Hn'|].
+      split; [exact A|]. split; [rewrite B; reflexivity | intros _; exact Hlen].
+    + (* LF *)
+      assert (Hn' : fl_name f0 <> []) by (apply Hn; reflexivity).
+      destruct (c =? 10); unfold fl_core; cbn; rewrite ?Es; cbn in *; repeat split; try lia; try congruence.
+    + unfold fl_core. cbn. rewrite ?Es. cbn in *. repeat split; try lia; try congruence. intros _. apply Hn. reflexivity.
+    + unfold fl_core. cbn. rewrite ?Es. cbn in *. repeat split; try lia; try congruence.
+    + unfold fl_core. cbn. rewrite ?Es. cbn in *. repeat split; try lia; try congruence.
+    + unfold fl_core. cbn. rewrite ?Es. cbn in *. repeat split; try lia; try congruence.
+Qed.
+
+Lemma fl_continue_core f : fl_core f -> fl_state f = H_VALID -> fl_core (fl_continue f).
+Proof.
+  intros (Hs & Hv & Hn) Hst. unfold fl_core, fl_continue. cbn. rewrite nlen_snoc. rewrite Hst in *. cbn in *.
+  repeat split; try lia; try congruence. intros _. apply Hn. reflexivity.
+Qed.
+
+Lemma fl_done_state f : fl_done f = true -> fl_state f = H_VALID.
+Proof. unfold fl_done. destruct (fl_state f); congruence. Qed.
+
+Lemma fl_loop_inv L buf : forall f, fl_inv L f -> fl_fail f = false -> fl_inv L (fst (fst (fl_loop L f buf))).
+Proof.
+  induction buf as [|c t IH]; intros f Hi Hf; cbn [fl_loop].
+  - exact Hi.
+  - destruct (fl_done f) eqn:Ed; [exact Hi|].
+    destruct Hi as (Hc & Hl & Hlf). specialize (Hlf Hf).
+    destruct (fl_parse_char_core L f c Hc) as (Hc1 & Hl1 & Hok).
+    destruct (fl_parse_char L f c) as [f1 ok]. cbn [fst snd] in *. destruct ok.
+    + specialize (Hok eq_refl).
+      assert (Hi2 : fl_inv L (fl_set_fail f1 false)) by (split; [exact Hc1 | cbn; split; [lia | intros _; lia]]).
+      destruct (fl_done (fl_set_fail f1 false) && next_is_blank t) eqn:Eb.
+      * apply IH; [|reflexivity]. apply Bool.andb_true_iff in Eb. destruct Eb as [Ed2 _].
+        destruct Hi2 as (A & B & C). split; [apply fl_continue_core; [exact A | exact (fl_done_state _ Ed2)] | exact (conj B C)].
+      * apply IH; [exact Hi2 | reflexivity].
+    + cbn [fst]. split; [exact Hc1 | cbn; split; [lia | intros E; discriminate E]].
+Qed.
+
+Lemma fl_parse_inv L f buf : fl_inv L f -> fl_inv L (fst (fst (fl_parse L f buf))).
+Proof.
+  intros Hi. unfold fl_parse. destruct (fl_fail f) eqn:Ef; [exact Hi|].
+  destruct (fl_done f && next_is_blank buf) eqn:Eb.
+  - apply fl_loop_inv; [|exact Ef]. apply Bool.andb_true_iff in Eb. destruct Eb as [Ed _].
+    destruct Hi as (A & B & C). split; [apply fl_continue_core; [exact A | exact (fl_done_state _ Ed)] | exact (conj B C)].
+  - apply fl_loop_inv; assumption.
+Qed.
+
+(* what a field line holds is at most one byte more than the line limit *)
+Lemma fl_inv_bound L f : fl_inv L f -> nlen (fl_name f) + nlen (fl_value f) <= max_line L + 1.
+Proof. intros ((Hs & _ & _) & Hl & _). lia. Qed.
+
+(* ---- message_headers ---- *)
+Lemma fields_add_size m n v : fields_size (fields_add m n v) <= fields_size m + nlen n + nlen v + 1.
+Proof.
+  induction m as [|[k w] t IH]; cbn [fields_add fields_size fold_right fst snd].
+  - unfold nlen; cbn; lia.
+  - destruct (str_eqb k n).
+    + cbn [fields_size fold_right fst snd]. rewrite !nlen_app'. unfold nlen at 3. cbn [length].
+      change (fold_right (fun kv acc => nlen (fst kv) + nlen (snd kv) + acc) 0 t) with (fields_size t). lia.
+    + cbn [fields_size fold_right fst snd].
+      change (fold_right (fun kv acc => nlen (fst kv) + nlen (snd kv) + acc) 0 (fields_add t n v)) with (fields_size (fields_add t n v)).
+      change (fold_right (fun kv acc => nlen (fst kv) + nlen (snd kv) + acc) 0 t) with (fields_size t). lia.
+Qed.
+
+Definition hd_inv (L : limits) (h : headers) : Prop :=
+  fl_inv L (hd_field h) /\ fields_size (hd_fields h) <= 2 * hd_length h /\
+  hd_length h <= max_hdr_len L + max_line L + 1 /\ (hd_fail h = false -> hd_length h <= max_hdr_len L).
+
+Lemma hd_inv_init L : hd_inv L hd_init.
+Proof. split; [apply fl_inv_init|]. cbn. repeat split; lia. Qed.
+
+Ltac hdsolve A B C D :=
+  unfold hd_set_fail; cbn [hd_fields hd_length hd_fail hd_field];
+  split; [first [exact A | apply fl_inv_init] |
+  split; [first [exact B | lia] |
+  split; [first [exact C | lia] |
+          intros E; first [discriminate E | exact (D E) | lia]]]].
+
+Lemma hd_blank_line_inv L h buf : hd_inv L h -> hd_inv L (fst (fst (hd_blank_line h buf))).
+Proof.
+  intros (A & B & C & D). unfold hd_blank_line. destruct buf as [|c t]; [exact (conj A (conj B (conj C D)))|].
+  destruct (negb (hd_cr h) && (c =? 13)).
+  - destruct t as [|d t1]; [exact (conj A (conj B (conj C D)))|].
+    destruct (d =? 10); cbn [fst]; hdsolve A B C D.
+  - destruct (c =? 10); cbn [fst]; hdsolve A B C D.
+Qed.
+
+Lemma hd_loop_inv L : forall n h buf, hd_inv L h -> hd_fail h = false -> hd_inv L (fst (fst (hd_loop n L h buf))).
+Proof.
+  induction n as [|n IH]; intros h buf Hi Hf; cbn [hd_loop].
+  - destruct Hi as (A & B & C & D). cbn [fst]. hdsolve A B C D.
+  - match goal with |- context [if ?e then _ else _] => destruct e end; [|apply hd_blank_line_inv; exact Hi].
+    destruct Hi as (A & B & C & D). pose proof (D Hf) as D'.
+    pose proof (fl_parse_inv L (hd_field h) buf A) as A1.
+    destruct (fl_parse L (hd_field h) buf) as [[f1 rest] r] eqn:Ep. cbn [fst] in A1.
+    destruct r.
+    + destruct rest as [|d rest'].
+      * cbn [fst]. hdsolve A1 B C D.
+      * (* the completed line is added *)
+        assert (Hname : 1 <= nlen (fl_name f1)).
+        { destruct (fl_parse_result L _ _ _ _ _ Ep) as [Hd _]. pose proof (fl_done_state _ Hd) as Hst.
+          destruct A1 as ((_ & _ & Hn) & _). rewrite Hst in Hn. specialize (Hn eq_refl).
+          destruct (fl_name f1); [contradiction | rewrite nlen_cons; lia]. }
+        pose proof (fl_inv_bound L f1 A1) as Hfb.
+        pose proof (fields_add_size (hd_fields h) (fl_name f1) (fl_value f1)) as Hadd.
+        unfold fl_len in *.
+        match goal with |- context [if ?e then _ else _] => destruct e eqn:Eover end.
+        -- cbn [fst]. unfold hd_set_fail. split; [apply fl_inv_init|]. cbn [hd_fields hd_length hd_fail hd_field]. split; [lia | split; [lia | intros E; discriminate E]].
+        -- apply IH; [|exact Hf]. split; [apply fl_inv_init|]. cbn [hd_fields hd_length hd_fail hd_field]. apply Bool.orb_false_iff in Eover. destruct Eover as [Eo _].
+           split; [lia | split; [lia | intros _; lia]].
+    + cbn [fst]. split; [exact A1|]. cbn [hd_fields hd_length hd_fail hd_field]. split; [exact B | split; [exact C | intros _; exact D']].
+    + cbn [fst]. split; [exact A1|]. cbn [hd_fields hd_length hd_fail hd_field]. split; [exact B | split; [exact C | intros _; exact D']].
+Qed.
+
+Lemma hd_parse_inv L h buf : hd_inv L h -> hd_inv L (fst (fst (hd_parse L h buf))).
+Proof. intros Hi. unfold hd_parse. destruct (hd_fail h) eqn:Ef; [exact Hi|]. apply hd_loop_inv; assumption. Qed.
+
+(* whatever bytes arrive, in whatever pieces: a header block never holds more than this *)
+Definition hd_bound (L : limits) : N := 2 * (max_hdr_len L + max_line L + 1) + max_line L + 1.
+
+Lemma hd_inv_bound L h : hd_inv L h -> hd_retained h <= hd_bound L.
+Proof.
+  intros (A & B & C & D). unfold hd_retained, hd_bound. pose proof (fl_inv_bound L _ A). lia.
+Qed.
+
+Fixpoint hd_feed (L : limits) (h : headers) (frags : list str) : headers :=
+  match frags with [] => h | f :: t => hd_feed L (fst (fst (hd_parse L h f))) t end.
+
+Theorem hd_feed_bounded L frags : forall h, hd_inv L h -> hd_retained (hd_feed L h frags) <= hd_bound L.
+Proof.
+  induction frags as [|f t IH]; intros h Hi; cbn [hd_feed]; [apply hd_inv_bound, Hi|].
+  apply IH, hd_parse_inv, Hi.
+Qed.
